@@ -8,8 +8,8 @@ user edits, i3 deletes `a`, `d/c`, `d` and adds `new`, i4 renames `a` and `d`).
 States: every sequence of <= 2 (quick) / <= 3 (thorough) user operations over
 {edit a, edit d/c, add `new` (clashes with i3), add `x`, unknown file `u`,
 unknown file `new`, unknown directory `ud/x`, rename a -> a2, remove --keep a,
-merge i1 / i2 / i3 (so that merge-modified files, conflict helper files and
-pending merges exist)}.  Every piece of content the "user" writes is a unique
+merge i1 / i2 / i3, edit a + merge i2 as one step (so that merge-modified
+files, text conflicts with helper files and pending merges exist)}.  Every piece of content the "user" writes is a unique
 token, so the harness knows exactly which bytes are user work.
 
 Commands, each run on a fresh copy of every state:
@@ -128,7 +128,7 @@ def open_branch(W, name):
 
 # ---- user operations (state generation) --------------------------------------------
 
-OPS = ("Ea", "Ec", "An", "Ax", "Uu", "Un", "Ud", "Ra", "Ka", "M1", "M2", "M3")
+OPS = ("Ea", "Ec", "An", "Ax", "Uu", "Un", "Ud", "Ra", "Ka", "M1", "M2", "M3", "C2")
 
 
 class Invalid(Exception):
@@ -157,7 +157,12 @@ def apply_op(W, op, seq, st):
         st["tokens"][c] = key
         st["merge_written"].discard(path)
 
-    if op in ("Ea", "Ec"):
+    if op == "C2":      # composite: edit a, then merge i2 -> a text conflict with helper files in one step
+        apply_op(W, "Ea", seq, st)
+        apply_op(W, "M2", seq, st)
+        if not open_tree(W).conflicts():
+            raise Invalid()
+    elif op in ("Ea", "Ec"):
         want = b"a-id" if op == "Ea" else b"c-id"
         path = None
         for cand in (("a", "a2") if op == "Ea" else ("d/c",)):
@@ -467,7 +472,7 @@ def sequences(depth):
         for s in itertools.product(OPS, repeat=k):
             if any(s[i] == s[i + 1] for i in range(len(s) - 1)):
                 continue
-            if sum(1 for o in s if o.startswith("M")) > 1:
+            if sum(1 for o in s if o[0] in "MC") > 1:
                 continue
             yield s
 
